@@ -239,7 +239,7 @@ func c13RunDet(exe string, scheds []c13Sched, procs int) []string {
 				if e > hi {
 					e = hi
 				}
-				if bad >= 3 {
+				if bad >= 2 {
 					for i := b; i < e; i++ {
 						res[i] = "skipped"
 					}
@@ -256,14 +256,21 @@ func c13RunDet(exe string, scheds []c13Sched, procs int) []string {
 	}
 	wg.Wait()
 	// anything but a clean run is repeated once, alone, before it counts
+	var rw sync.WaitGroup
 	retries := 0
 	for i, r := range res {
-		if !strings.Contains(r, " done ") && r != "skipped" && scheds[i].probe == "" && retries < 6 {
+		if !strings.Contains(r, " done ") && r != "skipped" && scheds[i].probe == "" && retries < 3 {
 			retries++
-			pool := &workerPool{name: "c13det", timeout: 5 * time.Minute, exe: exe}
-			res[i] = pool.runOnce(reqs[i : i+1])[0]
+			i := i
+			rw.Add(1)
+			go func() {
+				defer rw.Done()
+				pool := &workerPool{name: "c13det", timeout: 5 * time.Minute, exe: exe}
+				res[i] = pool.runOnce(reqs[i : i+1])[0]
+			}()
 		}
 	}
+	rw.Wait()
 	return res
 }
 
@@ -293,7 +300,7 @@ func c13EmitDet(e *emitter, s c13Sched, ans string) {
 }
 
 func genC13(e *emitter, tier string, seed uint64) {
-	nSched, nRace, procs := 800, 48, 6
+	nSched, nRace, procs := 600, 32, 6
 	switch tier {
 	case "thorough":
 		nSched, nRace = 60000, 1500
